@@ -916,3 +916,24 @@ func wrapDescriptorScenario(r *rand.Rand) []HOp {
 		{Kind: "add", PID: 0x41, ES: &astits.PMTElementaryStream{StreamType: astits.StreamTypePrivateData, ElementaryStreamDescriptors: []*astits.Descriptor{d}}, Slot: -1},
 		{Kind: "tables"}, mk(0x40), mk(0x41), {Kind: "remove", PID: 0x41}, {Kind: "tables"}, mk(0x40)}
 }
+
+// oversizeReaddScenario: a stream is written, removed, and added again with descriptors that make the program map section too big for
+// its packet — whether that addition is refused at once or only makes the emissions fail —, then removed (which fails when the
+// addition was refused), added once more without them and written: on every path the PID goes on counting where it stopped.
+func oversizeReaddScenario(r *rand.Rand) []HOp {
+	mk := func(p uint16) HOp {
+		return HOp{Kind: "data", PID: p, Data: &astits.MuxerData{PES: &astits.PESData{Header: &astits.PESHeader{StreamID: 0xC0, OptionalHeader: &astits.PESOptionalHeader{MarkerBits: 2}}, Data: gen.Bytes(r, 1+r.IntN(500))}}}
+	}
+	big := &astits.PMTElementaryStream{StreamType: astits.StreamTypeAACAudio, ElementaryStreamDescriptors: []*astits.Descriptor{{Tag: 0x80 + uint8(r.IntN(0x7e)), UserDefined: gen.Bytes(r, 150+r.IntN(100))}}}
+	plain := &astits.PMTElementaryStream{StreamType: astits.StreamTypeAACAudio}
+	ops := []HOp{{Kind: "add", PID: 0x40, ES: &astits.PMTElementaryStream{StreamType: astits.StreamTypeH264Video}, Slot: -1}, {Kind: "add", PID: 0x41, ES: plain, Slot: -1}, {Kind: "pcr", PID: 0x40}, {Kind: "tables"}}
+	for k := 0; k < 1+r.IntN(5); k++ {
+		ops = append(ops, mk(0x41), mk(0x40))
+	}
+	ops = append(ops, HOp{Kind: "remove", PID: 0x41}, HOp{Kind: "add", PID: 0x41, ES: big, Slot: -1}, HOp{Kind: "tables"}, mk(0x40), HOp{Kind: "remove", PID: 0x41},
+		HOp{Kind: "add", PID: 0x41, ES: plain, Slot: -1}, HOp{Kind: "tables"})
+	for k := 0; k < 2+r.IntN(3); k++ {
+		ops = append(ops, mk(0x41), mk(0x40))
+	}
+	return ops
+}
